@@ -289,7 +289,8 @@ func runBatch(cfg *batchCfg) *Summary {
 	for i, h := range hs {
 		chunks[i%cfg.jobs] = append(chunks[i%cfg.jobs], h)
 	}
-	cr := &childRun{exe: cfg.exe, procs: cfg.procs, deadline: t0.Add(cfg.budget)}
+	// the budget covers execution; generation (deterministic, fast) is before
+	cr := &childRun{exe: cfg.exe, procs: cfg.procs, deadline: time.Now().Add(cfg.budget)}
 	var mu sync.Mutex
 	nt := map[string]bool{}
 	perSig := map[string]int{}
